@@ -83,6 +83,22 @@ def run(ctx):
                         ctx.violation(key0 + ":shared@" + derived[di], "shared dump: dumped text differs from the generated code", dict(rep, args=args, dumped=dumped_payload(ex, g_), generated=want))
         else:
             ctx.violation(key0 + ":shared", "expansion with shared dump failed", dict(rep, args=args, result=r))
+        # shared dump over entries that carry argument lists of their own (`Trait()`, `Trait(bound(..))`: same code as the bare trait)
+        args = ", ".join(t + rng.choice(["", "()", "(bound(..))", "()"]) for t in derived) + ", dump"
+        r = ex.attr(args, src) if k % 2 else ex.derive("#[derive_ex(%s)] %s" % (args, src))
+        evals += 1
+        nontriv += 1
+        if r["status"] == "ok" and r.get("items") is not None:
+            got = r["items"][(1 if k % 2 else 0):]
+            if len(got) != len(derived) or any(g["kind"] != "compile_error" for g in got):
+                ctx.violation(key0 + ":shared-args", "shared dump must apply to every entry of its list, also those with their own argument list", dict(rep, args=args, got=[g["canon"][:200] for g in got]))
+            else:
+                for di, g_ in enumerate(got):
+                    want = canon_of(ex, " ".join(pt_tokens(items, pt, di)))
+                    if dumped_payload(ex, g_) != want:
+                        ctx.violation(key0 + ":shared-args@" + derived[di], "shared dump: dumped text differs from the generated code", dict(rep, args=args, dumped=dumped_payload(ex, g_), generated=want))
+        else:
+            ctx.violation(key0 + ":shared-args", "expansion with shared dump failed", dict(rep, args=args, result=r))
         if len(samples) < 2:
             samples.append({"item": src, "args": ", ".join(derived)})
         if len(ctx.violations) > 20:
